@@ -201,6 +201,18 @@ class Origins:
                 or "::RefMut<" in ty or "::Ref<" in ty or "::ValuesMut<" in ty or "::IterMut<" in ty or "::Entry<" in ty or "::OccupiedEntry<" in ty or "::VacantEntry<" in ty)
 
     def origin_place(self, place, depth=0):
+        projs0 = pl_projs(place)
+        if projs0 and projs0[0].startswith(".") and depth < 40:
+            # field of a locally built tuple (`match (&mut self.0, other.0)`): resolve to the operand stored there
+            d = self.single_def(pl_local(place))
+            if d is not None and d[0] == "assign" and d[2]["k"] == "agg" and d[2]["agg"] == "tuple":
+                idx = projs0[0][1:].split(":")[0]
+                if idx.isdigit() and int(idx) < len(d[2]["ops"]):
+                    p = op_place(d[2]["ops"][int(idx)])
+                    if p is not None:
+                        rest = projs0[1:]
+                        inner = p if not rest else ([p] if isinstance(p, int) else list(p)) + rest
+                        return self.origin_place(inner, depth + 1)
         root, path = self.origin(pl_local(place), depth)
         extra = []
         for pr in pl_projs(place):
